@@ -37,6 +37,7 @@ pub fn profile() -> Profile {
     p.keyword_names = 2;
     p.private = 3;
     p.workgroup = 3;
+    p.many_funcs = 4;
     p
 }
 
@@ -240,7 +241,12 @@ pub fn run(sut: &dyn Sut, tier: Tier) -> ! {
     run.canaries(&mut |v| eval_replay(sut, v));
     let cases = tier.pick(3000, 100000);
     let mut j = |choices: &[u32], st: &mut Stats| judge_wide(sut, choices, st);
-    if let Some(f) = run_inprocess(run.seed_for(1), cases, (100, 500), &mut stats, &mut j) {
+    let mut found = run_inprocess(run.seed_for(1), cases, (100, 500), &mut stats, &mut j);
+    if found.is_none() && tier == Tier::Thorough {
+        // coverage-guided search over the same choice sequences (libFuzzer, oracle in the target)
+        found = fuzz_choices(&run, &mut stats, (100, 500), 300, 12, 8_000, &mut j);
+    }
+    if let Some(f) = found {
         let mut st = Stats::new();
         let body = match C13.build(&f.choices, &mut st) {
             Some(b) => case_json(&b, &f.choices, None),
